@@ -10,12 +10,25 @@ use vsched::thread;
 /// Struct that holds the currently active queue and marks it as panicked if dropped during a panic
 ///
 pub (super) struct ActiveQueue<'a> {
-    pub (super) queue: &'a JobQueue
+    pub (super) queue: &'a JobQueue,
+
+    /// True if the thread was already panicking when this queue became active (the queue may be run from a destructor
+    /// while an unrelated panic unwinds: that is not a panic in one of the queue's own jobs)
+    panicking_on_entry: bool
+}
+
+impl<'a> ActiveQueue<'a> {
+    ///
+    /// Marks a queue as active on the current thread
+    ///
+    pub (super) fn new(queue: &'a JobQueue) -> ActiveQueue<'a> {
+        ActiveQueue { queue, panicking_on_entry: thread::panicking() }
+    }
 }
 
 impl<'a> Drop for ActiveQueue<'a> {
     fn drop(&mut self) {
-        if thread::panicking() {
+        if thread::panicking() && !self.panicking_on_entry {
             self.queue.core.lock()
                 .map(|mut core| core.state = QueueState::Panicked)
                 .ok();
